@@ -16,6 +16,46 @@ pub fn count_strings(k: u64, max_len: u32) -> u64 {
     (0..=max_len).map(|l| k.pow(l)).sum()
 }
 
+/// `n` indices below `total`, chosen by the seed (only selects which explored cases are shown as samples)
+pub fn sample_indices(seed: u64, total: u64, n: usize) -> Vec<u64> {
+    let mut x = seed ^ 0x9E37_79B9_7F4A_7C15;
+    (0..n)
+        .map(|_| {
+            x = x.wrapping_mul(6364136223846793005).wrapping_add(1442695040888963407);
+            if total == 0 {
+                0
+            } else {
+                (x >> 11) % total
+            }
+        })
+        .collect()
+}
+
+/// the idx-th list over `items` (shortest first)
+pub fn nth_list(items: &[String], mut idx: u64) -> Vec<String> {
+    let k = items.len() as u64;
+    let mut len = 0u32;
+    loop {
+        let c = k.pow(len);
+        if idx < c {
+            break;
+        }
+        idx -= c;
+        len += 1;
+    }
+    let mut list = vec![String::new(); len as usize];
+    for i in (0..len as usize).rev() {
+        list[i] = items[(idx % k) as usize].clone();
+        idx /= k;
+    }
+    list
+}
+
+pub static SEED: std::sync::atomic::AtomicU64 = std::sync::atomic::AtomicU64::new(0);
+pub fn seed() -> u64 {
+    SEED.load(std::sync::atomic::Ordering::Relaxed)
+}
+
 /// the idx-th string (shortest first, then lexicographic by symbol index)
 pub fn nth_string(alphabet: &[&str], mut idx: u64, out: &mut String) {
     out.clear();
@@ -127,7 +167,15 @@ pub fn c07_lines(sigma: &'static [&'static str], max_len: u32) -> EnumOutcome {
     out.rule = "all strings enumerated by index (count checked against the closed form sum k^l); non-trivial = contains a quote or yields >= 2 tokens".into();
     out.expected = Some(total);
     out.exhaustive = out.evaluations == total;
-    out.samples = vec![json!("\"\" a"), json!("a\"b \"c d\""), json!("\"\\\"é\\\\\" -")];
+    out.samples = sample_indices(seed(), total, 4)
+        .into_iter()
+        .map(|i| {
+            let mut l = String::new();
+            nth_string(sigma, i, &mut l);
+            let toks = real_tokens(&l).unwrap_or_default();
+            json!({"line": l, "tokens": toks})
+        })
+        .collect();
     out.wall_s = t0.elapsed().as_secs_f64();
     out
 }
@@ -188,7 +236,14 @@ pub fn c07_typed(max_len: u32) -> EnumOutcome {
     out.rule = "all strings by index; non-trivial = yields >= 2 tokens".into();
     out.expected = Some(total);
     out.exhaustive = out.evaluations == total;
-    out.samples = vec![json!("a \"b c\"")];
+    out.samples = sample_indices(seed(), total, 3)
+        .into_iter()
+        .map(|i| {
+            let mut l = String::new();
+            nth_string(&C07_SIGMA, i, &mut l);
+            json!({"typed_line": l, "rules_give": tokens_adm(&l)})
+        })
+        .collect();
     out.wall_s = t0.elapsed().as_secs_f64();
     out
 }
@@ -256,7 +311,13 @@ pub fn c07_roundtrip(max_items: u32, max_sym: u32) -> EnumOutcome {
     out.rule = "all lists by index; non-trivial = some string is empty or contains quote/backslash/space".into();
     out.expected = Some(total);
     out.exhaustive = out.evaluations == total;
-    out.samples = vec![json!(["", "a b", "\\\""])];
+    out.samples = sample_indices(seed(), total, 3)
+        .into_iter()
+        .map(|i| {
+            let l = nth_list(&strs, i);
+            json!({"list": l, "rendered": render_list(&l)})
+        })
+        .collect();
     out.wall_s = t0.elapsed().as_secs_f64();
     out
 }
@@ -376,7 +437,13 @@ pub fn c08_lists(sigma: &[&str], max_items: u32, max_sym: u32) -> EnumOutcome {
     out.rule = "all token lists by index through Tokens::from_raw + ArgList::args(); non-trivial = some item is not a plain value".into();
     out.expected = Some(total);
     out.exhaustive = out.evaluations == total;
-    out.samples = vec![json!(["-aé", "--", "-x"]), json!(["---", "-", ""])];
+    out.samples = sample_indices(seed(), total, 4)
+        .into_iter()
+        .map(|i| {
+            let l = nth_list(&toks, i);
+            json!({"tokens": l, "classified": format!("{:?}", classify(&l))})
+        })
+        .collect();
     out.wall_s = t0.elapsed().as_secs_f64();
     out
 }
@@ -452,7 +519,13 @@ pub fn c08_typed(max_items: u32, max_sym: u32) -> EnumOutcome {
     out.rule = "all lists by index; non-trivial = some item is not a plain value".into();
     out.expected = Some(total);
     out.exhaustive = out.evaluations == total;
-    out.samples = vec![json!("x \"-aé\" \"--\" \"-x\"")];
+    out.samples = sample_indices(seed(), total, 3)
+        .into_iter()
+        .map(|i| {
+            let l = nth_list(&toks, i);
+            json!({"typed": format!("x {}", render_list(&l))})
+        })
+        .collect();
     out.wall_s = t0.elapsed().as_secs_f64();
     out
 }
@@ -586,7 +659,13 @@ pub fn c17_utils() -> EnumOutcome {
     out.rule = "all 1 112 031 scalars x 4 neighbour widths through encode_utf8, char_pop_front, char_count, char_byte_index, common_prefix_len, Utf8Accum vs std; non-trivial = multi-byte scalar".into();
     out.expected = Some(1_112_031);
     out.exhaustive = out.evaluations == total && total == 1_112_031;
-    out.samples = vec![json!("U+0080"), json!("U+07FF"), json!("U+0800"), json!("U+FFFF"), json!("U+10000"), json!("U+10FFFF")];
+    out.samples = sample_indices(seed(), total, 5)
+        .into_iter()
+        .map(|i| {
+            let c = scalars[i as usize];
+            json!({"scalar": format!("U+{:04X}", c as u32), "utf8": format!("{:02X?}", c.to_string().as_bytes())})
+        })
+        .collect();
     out.wall_s = t0.elapsed().as_secs_f64();
     out
 }
@@ -723,7 +802,14 @@ pub fn c17_sessions(neighbours: &[char]) -> EnumOutcome {
     out.rule = "every scalar >= U+0020 except U+007F, next to a neighbour of each listed width: type/echo, move, delete, retype, submit as name and quoted argument, recall, short option, option error line; non-trivial = multi-byte scalar".into();
     out.expected = Some(1_112_031 * neighbours.len() as u64);
     out.exhaustive = out.evaluations == total;
-    out.samples = vec![json!({"scalar": "U+10FFFF", "neighbour": "é", "typed": "é\u{10FFFF}é"})];
+    out.samples = sample_indices(seed(), scalars.len() as u64, 4)
+        .into_iter()
+        .map(|i| {
+            let c = scalars[i as usize];
+            let n = neighbours[(i as usize) % neighbours.len()];
+            json!({"scalar": format!("U+{:04X}", c as u32), "neighbour": n.to_string(), "typed": format!("{}{}{}", n, c, n)})
+        })
+        .collect();
     out.wall_s = t0.elapsed().as_secs_f64();
     out
 }
